@@ -200,9 +200,14 @@ TryFor(l) == IF l = "bytelit" THEN LemmaTry ELSE NestedTry
 (*      - its recorded type is exactly the predeclared `string`, it has a  *)
 (*        constant value, and MinSize <= len(value) <= MaxSize;  or        *)
 (*      - it is a composite literal (possibly under &) whose type          *)
-(*        EXPRESSION denotes []byte or [N]byte (element type identical to  *)
-(*        the universe object `byte`), N > 0 for arrays, every element a   *)
-(*        constant integer, MinSize <= len(Elts) <= MaxSize.               *)
+(*        EXPRESSION denotes []byte or [N]byte (element type identical,    *)
+(*        in the sense of types.Identical, to byte: so also when spelled   *)
+(*        uint8 - fix of finding FL3; before that fix the test was pointer *)
+(*        identity with the universe object `byte`), N > 0 for arrays,     *)
+(*        every element a constant integer, MinSize <= len(Elts) <= Max.   *)
+(*   and it does not sit inside a constant expression whose type is not    *)
+(*   `string` (len("...") or len([N]byte{...}) in an array length): pre()  *)
+(*   prunes those subtrees - fix of findings FL1/FL2.                      *)
 (***************************************************************************)
 MinSize == 8
 MaxSize == 2048
@@ -263,9 +268,10 @@ TypeExprKind(c, f) == IF Ctx[c].elided THEN "nil" ELSE IF f = "uint8_slice" THEN
 
 Rewritten(c, f, size) ==
   /\ Ctx[c].prune = "none"
+  /\ ~Ctx[c].constreq                    \* operand of a non-string constant expression: subtree pruned
   /\ size >= MinSize /\ size <= MaxSize
   /\ IF f \in StringForms THEN RecordedType(c, f) = "string"
-     ELSE /\ TypeExprKind(c, f) = "byte"
+     ELSE /\ TypeExprKind(c, f) \in {"byte", "uint8"}
           /\ (f \in ArrayForms => size > 0)
 
 (* What property C09 demands, independently of how the code decides. *)
@@ -289,9 +295,6 @@ LeadCells == {<<cell[1], cell[2]>> : cell \in {x \in Cells : Lead(x[1], x[2], x[
 (* the real tool by the checks; a reproduced lead is a finding, see known_findings). *)
 ExpectedLeads ==
   {<<"composite_elided", f>> : f \in {"byte_slice", "byte_array", "uint8_slice"}}
-  \cup {<<c, "uint8_slice">> : c \in {x \in Contexts : "uint8_slice" \in Ctx[x].forms /\ Ctx[x].prune = "none"}}
-  \cup {<<"array_len_tconst", "string">>, <<"array_len_tconst", "concat">>}
-  \cup {<<"array_len_lit", "byte_array">>, <<"array_len_lit", "ptr_byte_array">>}
 ASSUME LeadCells = ExpectedLeads
 
 (* Every position that must stay constant and is not a lead is kept, every cell    *)
